@@ -582,10 +582,16 @@ impl AutosarModel {
             locked_model.files.swap_remove(pos);
             if locked_model.files.is_empty() {
                 // no other files remain in the model, so it reverts to being empty
-                locked_model.root_element.0.write().content.clear();
-                locked_model.root_element.set_file_membership(HashSet::new());
+                let root_element = locked_model.root_element.clone();
                 locked_model.identifiables.clear();
                 locked_model.reference_origins.clear();
+                drop(locked_model);
+                // remove the sub elements one by one, so that handles to them become invalid
+                let sub_elements: Vec<Element> = root_element.sub_elements().collect();
+                for sub_element in sub_elements {
+                    let _ = root_element.remove_sub_element(sub_element);
+                }
+                root_element.set_file_membership(HashSet::new());
             } else {
                 drop(locked_model);
                 // other files still contribute elements, so only the elements specifically associated with this file should be removed
